@@ -219,7 +219,7 @@ func (c *Ctx) arrStore(arr, idx, val, arrSort string) string {
 func (c *Ctx) wrElem(st *State, key, obj, idx, val string) {
 	h := c.heap(st, key)
 	arr := c.rdObj(h, obj)
-	c.wrObj(st, key, obj, c.arrStore(arr, idx, val, "(Array Int "+key+")"))
+	c.wrObj(st, key, obj, c.arrStore(arr, idx, val, "(Array Int "+baseSort(key)+")"))
 }
 
 // objOld: the object term denotes an object that existed at function entry:
